@@ -142,7 +142,9 @@ pub fn read_bytes_map(
     buf: &mut &[u8],
 ) -> Result<HashMap<String, Bytes>, LowLevelDeserializationError> {
     let len = read_short_length(buf)?;
-    let mut v = HashMap::with_capacity(len);
+    // The count comes from the wire: do not preallocate more entries
+    // than the remaining bytes could possibly describe.
+    let mut v = HashMap::with_capacity(len.min(buf.len() / 6));
     for _ in 0..len {
         let key = read_string(buf)?.to_owned();
         let val = Bytes::copy_from_slice(read_bytes(buf)?);
@@ -224,7 +226,9 @@ pub fn read_string_map(
     buf: &mut &[u8],
 ) -> Result<HashMap<String, String>, LowLevelDeserializationError> {
     let len = read_short_length(buf)?;
-    let mut v = HashMap::with_capacity(len);
+    // The count comes from the wire: do not preallocate more entries
+    // than the remaining bytes could possibly describe.
+    let mut v = HashMap::with_capacity(len.min(buf.len() / 4));
     for _ in 0..len {
         let key = read_string(buf)?.to_owned();
         let val = read_string(buf)?.to_owned();
@@ -315,7 +319,9 @@ pub fn read_string_multimap(
     buf: &mut &[u8],
 ) -> Result<HashMap<String, Vec<String>>, LowLevelDeserializationError> {
     let len = read_short_length(buf)?;
-    let mut v = HashMap::with_capacity(len);
+    // The count comes from the wire: do not preallocate more entries
+    // than the remaining bytes could possibly describe.
+    let mut v = HashMap::with_capacity(len.min(buf.len() / 4));
     for _ in 0..len {
         let key = read_string(buf)?.to_owned();
         let val = read_string_list(buf)?;
